@@ -1,10 +1,10 @@
 ID = 'C20'
 TITLE = 'Greedy design never worsens the loss and takes the best substitution each step'
 CONTRACT_MODULES = ['contracts.design_c']
-FUNCTIONS = ['tangermeme.design._fast_tile_substitute']
+FUNCTIONS = ['tangermeme.design._fast_tile_substitute', 'tangermeme.design.greedy_substitution#best-candidate']
 BOUNDED = 'bounded.C20'
 BOUNDED_BUDGET = {'quick': 60, 'thorough': 600}
 LEVEL = 'other'
-EXPLANATION = 'deductive: _fast_tile_substitute row i = X with the motif at offset i (three nested loop invariants, index safety, prange frame); bounded: brute-force enumeration of all single substitutions with exact-arithmetic models'
+EXPLANATION = 'deductive: _fast_tile_substitute row i = X with the motif at offset i (three nested loop invariants, index safety, prange frame); selection step of greedy_substitution (fragment: the four statements after one motif's per-position losses): the running best candidate is replaced whenever this motif's smallest loss is strictly better, never when it is worse, records that minimum and one of its positions, and best_improvement is the running maximum (argmin axiom); bounded: brute-force enumeration of all single substitutions with exact-arithmetic models'
 ASSUMPTIONS = ['predict contract (C03)', 'loss deterministic']
 TRUSTED = []
